@@ -230,10 +230,13 @@ PROPS['C20'] = {
 _BX_TRUST = ['BX reference implementations (CRC-32, MD5, SHA-1, SHA-256, HMAC, TLV decoder/encoder, abstract agent) written for this harness from the RFCs / property statements; self-tested against published vectors and python hashlib/zlib at setup']
 PROPS['C03'] = {
     'level': 'exploration',
+    'vx': [{'unit': 'layout'}, {'unit': 'writers', 'functions': ['write_into', 'write_into_unchecked', 'to_bytes', 'write_header']}],
     'bx': ['c03'],
-    'technique': 'bounded stand-in (execution of the real MessageBuilder against an independent serialiser + reference decoder); the parser side it relies on is proved in unit parse (C02)',
+    'technique': 'Verus: spec-level round-trip theorem over the verified parser/writer contracts; bounded stand-in (execution of the real MessageBuilder against an independent serialiser + reference decoder) for the builder itself',
     'rule': 'see engines.bx[0].rule',
-    'proved': ['(in C02/C10) the parser accepts exactly the well-formed buffers and exposes them faithfully - so "parses back identically" reduces to "build() produces the specified layout"'],
+    'proved': ['(unit layout, spec level) theorem_layout_wellformed: header + concatenation of padded TLVs of any attribute list obeying the ordering rules (with FINGERPRINT values given by the CRC spec function) within the 16-bit length field is a well-formed message: length a multiple of four, header length field = length - 20, accepted by the verified parser contract (wf_message); lemma_layout_tail_ok for every tail',
+               '(unit writers) every attribute writer used by the builder produces exactly tlv_bytes(type, value) (12 typed + raw; see C12)',
+               '(in C02/C10) the parser accepts exactly the well-formed buffers and exposes them faithfully - so "parses back identically" reduces to "build() concatenates header and attribute TLVs as specified", which is the bounded part'],
     'bounded': ['MessageBuilder::{build,write_into,byte_len,add_*} produce the specified layout: BX random builder programs (dyn AttributeWrite + SmallVec + iterator sums are outside the Verus subset; Kani exhausted 15 min / 13 GB on a one-attribute builder)'],
     'trusted': _BX_TRUST,
 }
